@@ -1021,6 +1021,21 @@ async fn c14_send(seq: &[Edit]) -> Result<(), (String, String, String)> {
         pending.extend(ops.iter().cloned());
         rep.commit_operations(ops).await.map_err(|e| (at, format!("commit failed: {e}"), "commit succeeds".into()))?;
     }
+    // conversely: a fresh replica that receives these versions applies them as the documented operation model says
+    // (an independent replay of the documents, written against serde_json::Value only)
+    let versions = rec.lock().unwrap().versions.clone();
+    let want = replay_versions(&versions).map_err(|e| ("replaying the versions sent".to_string(), e, "well-formed versions".into()))?;
+    let mut fresh = Replica::new(InMemoryStorage::new());
+    let at = "a fresh replica synced from the versions sent".to_string();
+    fresh.sync(&mut server, false).await.map_err(|e| (at.clone(), format!("sync failed: {e}"), "sync succeeds".into()))?;
+    let got = state_of(&mut fresh).await;
+    if got != want {
+        return Err((at, format!("{got:?}"), format!("the documents applied in order: {want:?}")));
+    }
+    let mine = state_of(&mut rep).await;
+    if mine != want {
+        return Err(("the sending replica after its last sync".into(), format!("{mine:?}"), format!("the state the documents describe: {want:?}")));
+    }
     Ok(())
 }
 
